@@ -93,7 +93,10 @@ Layouts == { NaturalLayout,
              [infoFirst |-> FALSE, pre |-> 3, mid |-> 1, post |-> 2, slack |-> 0],
              [infoFirst |-> TRUE, pre |-> 8, mid |-> 5, post |-> 0, slack |-> 0],
              [infoFirst |-> FALSE, pre |-> 0, mid |-> 0, post |-> 0, slack |-> 5],
-             [infoFirst |-> TRUE, pre |-> 1, mid |-> 0, post |-> 7, slack |-> 2] }
+             [infoFirst |-> TRUE, pre |-> 1, mid |-> 0, post |-> 7, slack |-> 2],
+             \* Version field omitted when its flag is clear: payload right after the 48-octet fixed part
+             [infoFirst |-> FALSE, pre |-> 0, mid |-> 0, post |-> 8, slack |-> 0, nover |-> TRUE],
+             [infoFirst |-> TRUE, pre |-> 0, mid |-> 2, post |-> 8, slack |-> 0, nover |-> TRUE] }
 
 Versions == {VersionEncode(6, 1, 7601, 15), VersionEncode(10, 0, 10000 + (Seed % 50000), 15)}
 ScOf(fl, tn, ti) == Pat(Seed * 7 + Len(tn) + 3 * Len(ti) + Cardinality(fl), 8)
